@@ -82,7 +82,6 @@ def replay_call(path, line):
     code = (
         "import sys, importlib.util\n"
         f"spec = importlib.util.spec_from_file_location('h', {path!r}); h = importlib.util.module_from_spec(spec); spec.loader.exec_module(h)\n"
-        f"from h import *\n"
         f"r = h.{fn}({args})\n"
         "print('RESULT', r)\n"
         "sys.exit(0 if r else 7)\n"
